@@ -570,6 +570,11 @@ var promModel = porcupine.Model{
 				return out.ok, promState{set: true, err: in.arg}
 			}
 			return !out.ok, st
+		case "failv": // Fail that also carries a value
+			if !st.set {
+				return out.ok, promState{set: true, val: 1000 + in.arg, err: in.arg}
+			}
+			return !out.ok, st
 		case "wait":
 			return st.set && out.val == st.val && out.err == st.err, st
 		}
@@ -611,6 +616,8 @@ func runPromise(t *testing.T, c *Case, o RunOpts) *Result {
 							}
 						case "fail":
 							out.ok = p.Fail(nil, promErr{op.Arg})
+						case "failv":
+							out.ok = p.Fail(1000+op.Arg, promErr{op.Arg})
 						case "wait":
 							r := <-p.Wait()
 							if v, ok := r.Value.(int); ok {
@@ -684,7 +691,7 @@ func genPromise(r *simrt.RNG) *Case {
 				ops = append(ops, PromOp{"fulfill", v})
 				setter = true
 			case x < 6:
-				ops = append(ops, PromOp{"fail", arg})
+				ops = append(ops, PromOp{[]string{"fail", "failv"}[r.Intn(2)], arg})
 				setter = true
 			default:
 				ops = append(ops, PromOp{Op: "wait"})
@@ -788,8 +795,12 @@ func runPromiseSeq(t *testing.T, c *Case, o RunOpts) *Result {
 					} else if err == nil {
 						sim.Fail("oracle", "promise-seq-second-fulfill", fmt.Sprintf("op %d: Fulfill on a settled immutable promise returned nil", i))
 					}
-				case "fail":
-					ok := p.Fail(nil, promErr{op.Arg})
+				case "fail", "failv":
+					var fv interface{}
+					if op.Op == "failv" {
+						fv = 1000 + op.Arg // a rejected Fail must not touch the value either
+					}
+					ok := p.Fail(fv, promErr{op.Arg})
 					if !set {
 						if !ok {
 							sim.Fail("oracle", "promise-seq-fail", fmt.Sprintf("op %d: Fail on an unset promise returned false", i))
@@ -827,7 +838,7 @@ func genPromiseSeq(r *simrt.RNG) *Case {
 		case x < 4:
 			pl.Ops = append(pl.Ops, PromOp{"fulfill", i + 1})
 		case x < 6:
-			pl.Ops = append(pl.Ops, PromOp{"fail", i + 1})
+			pl.Ops = append(pl.Ops, PromOp{[]string{"fail", "failv"}[r.Intn(2)], i + 1})
 		default:
 			pl.Ops = append(pl.Ops, PromOp{Op: "wait"})
 		}
